@@ -3,7 +3,9 @@
 package rules
 
 import (
+	"go/types"
 	"sort"
+	"strings"
 
 	"sopverif/eng"
 )
@@ -19,7 +21,33 @@ type Property struct {
 
 var registry = map[string]*Property{}
 
-func register(p *Property) { registry[p.ID] = p }
+func register(p *Property) {
+	run := p.Run
+	p.Run = func(c *eng.Ctx) {
+		curProg = c.P
+		run(c)
+	}
+	registry[p.ID] = p
+}
+
+// curProg is the program of the property run in progress (rules run one at a time).
+var curProg *eng.Prog
+
+// nameOf is o.Name(), except for a function of the reference tree that the normaliser found under another name:
+// rules that recognise a product function by its name keep working after a rename.
+func nameOf(o types.Object) string {
+	if o == nil {
+		return ""
+	}
+	if fn, isF := o.(*types.Func); isF && curProg != nil {
+		if f := curProg.FuncOf(fn); f != nil {
+			if i := strings.LastIndex(f.Key, "."); i >= 0 && f.Key[i+1:] != fn.Name() {
+				return f.Key[i+1:]
+			}
+		}
+	}
+	return o.Name()
+}
 
 func Get(id string) *Property { return registry[id] }
 
